@@ -18,8 +18,11 @@ def scal(name):
     return Sym.make(z3.Real(name))
 
 
-def tt(a, dtype=F64):
-    return torch.tensor(np.asarray(a), dtype=dtype)
+NATIVE_DTYPE = [torch.float64]      # native replays run in float64 and, for the safety clauses, again in float32
+
+
+def tt(a, dtype=None):
+    return torch.tensor(np.asarray(a), dtype=dtype or NATIVE_DTYPE[0])
 
 
 def ensure(h, ctx, label, goal, meta=None):
